@@ -74,11 +74,11 @@ def mat_cases(kernels, seed, tier, consts=None):
         ns = 24 if '512' in k else 12
         nm = 144 if k.startswith('mmult_avx') and '4x12' not in k else (48 if 'mmult' in k else 12)
         eight = k.endswith('_8')
-        n = (30 if tier == 'quick' else 600)
+        n = (54 if tier == 'quick' else 900)
         if nm == 144:
-            n = (8 if tier == 'quick' else 120)
+            n = (18 if tier == 'quick' else 180)
         for i in range(n):
-            mode = i % 6
+            mode = i % 9
             if mode == 0:      # everything random, all representations
                 s = [rng.word() for _ in range(ns)]; m = [rng.word() for _ in range(nm)]
             elif mode == 1:    # boundary values
@@ -96,6 +96,51 @@ def mat_cases(kernels, seed, tier, consts=None):
                     s = [0x5555555555555555] * ns; m = [3] * nm
             elif mode == 4:    # non-canonical coefficients and states
                 s = [(P + rng.below(2**32 - 1)) for _ in range(ns)]; m = [(P + rng.below(2**32 - 1)) for _ in range(nm)]
+            elif mode == 6:    # coefficient 1 (or state 1) passes the other operand through verbatim: choose the addends of one
+                               # lane so that a partial sum lands in [p, 2^64) WITHOUT wrapping and the next addend is large
+                def triple():
+                    k = rng.below(4)
+                    if k == 0:
+                        w1 = P - 1 - rng.below(4); w2 = 2**32 - 1 - rng.below(4)
+                    elif k == 1:
+                        w1 = rng.next() % P; w2 = (M - 1 - w1 - rng.below(1 << 16)) % M
+                    elif k == 2:
+                        w1 = M - 1 - rng.below(1 << 10); w2 = rng.below(1 << 10)
+                    else:
+                        w1 = P + rng.below(2**32 - 1); w2 = rng.below(2**31)
+                    w3 = [P + 1, M - 1, P - 1, 2**63 - 2**31 + 1, P + rng.below(2**32 - 1), rng.next() | (1 << 63)][rng.below(6)]
+                    t3 = [w1, w2, w3]
+                    r = rng.below(3)
+                    return t3[r:] + t3[:r]
+                one_in_state = (i // 9) % 2 == 0
+                s = [0] * ns; m = [0] * nm
+                if ns == 12:
+                    for lane in range(4):
+                        t3 = triple()
+                        for j in range(3):
+                            s[4 * j + lane] = 1 if one_in_state else t3[j]
+                    for row in range(nm // 12):
+                        for lane in range(4):
+                            t3 = triple()
+                            for j in range(3):
+                                m[12 * row + 4 * j + lane] = t3[j] if one_in_state else [1, 2, 1][j]
+                else:
+                    for half in range(2):
+                        for lane in range(4):
+                            t3 = triple()
+                            for j in range(3):
+                                s[8 * j + 4 * half + lane] = 1 if one_in_state else t3[j]
+                    for row in range(nm // 12):
+                        for lane in range(4):
+                            t3 = triple()
+                            for j in range(3):
+                                m[12 * row + 4 * j + lane] = t3[j] if one_in_state else [1, 2, 1][j]
+            elif mode == 7:    # all coefficients below 2^32 (and large states): a narrower product pipeline must not be selected wrongly
+                s = [(M - 1 - rng.below(1 << 34)) if rng.below(3) else (P - 1 - rng.below(1 << 20)) for _ in range(ns)]
+                m = [[0xFFFFFFFF, 0xC0000000, 0x80000000, 0x7FFFFFFF, 0xFFFFFFFE][rng.below(5)] if rng.below(2) else rng.below(1 << 32) for _ in range(nm)]
+            elif mode == 8:    # all coefficients below 2^16 / 2^63
+                lim = 16 if (i // 9) % 2 else 63
+                s = [rng.word() for _ in range(ns)]; m = [rng.next() >> (64 - lim) for _ in range(nm)]
             else:              # the library's own tables when available
                 s = [rng.word() for _ in range(ns)]
                 if consts and nm == 144:
